@@ -22,6 +22,7 @@ import Golib.FailClosed.Tail
 import Golib.FailClosed.Findings
 import Golib.FailClosed.PackA
 import Golib.FailClosed.Stream
+import Golib.FailClosed.Lazy
 import Golib.Step.Prefix
 import Golib.Step.ValueInst
 
@@ -241,6 +242,48 @@ theorem stream_step_cut_fails (st : Step.Item) (h : st.ok Step.valueRT Step.step
   cases hc : runC (Step.readOneP Step.stepTable) c with
   | none => rfl
   | some x => obtain ⟨v, c'⟩ := x; rw [hc] at h2; simp only at h2; rw [h1] at h2; simp at h2
+
+/-! ## two-phase (lazy) decoding: fail-closed on every later look at the same object
+
+    `StatGeneralPack` decodes its table on first use (`unpack`, Golib.FailClosed.Lazy): the encoded
+    bytes are dropped only after the whole table decoded. -/
+
+/-- a failed lazy decode fails again on the next access … -/
+theorem lazy_error_sticky {T C : Type} (parse : Bytes → List C × Bool) (put : T → C → T)
+    (s s' : Lazy.Obj T) (h : Lazy.unpack parse put s = .err s') :
+    (Lazy.unpack parse put s').failed = true := Lazy.unpack_error_sticky parse put s s' h
+
+/-- … and on every later one -/
+theorem lazy_error_forever {T C : Type} (parse : Bytes → List C × Bool) (put : T → C → T) (n : Nat)
+    (s s' : Lazy.Obj T) (h : Lazy.unpack parse put s = .err s') :
+    (Lazy.accessN parse put n s').failed = true := Lazy.unpack_error_forever parse put n s s' h
+
+/-- the failed decode is idempotent on the state (keyed table: putting the same columns again changes nothing) -/
+theorem lazy_error_stable {T C : Type} (parse : Bytes → List C × Bool) (put : T → C → T)
+    (hput : ∀ t cols, Lazy.putAll put (Lazy.putAll put t cols) cols = Lazy.putAll put t cols)
+    (s s' : Lazy.Obj T) (h : Lazy.unpack parse put s = .err s') :
+    Lazy.unpack parse put s' = .err s' := Lazy.unpack_error_stable parse put hput s s' h
+
+/-- after a failed access `Write` emits exactly the undecoded bytes it would have emitted before, and
+    `IsEmpty()` is false: the damaged table is never re-encoded as something else -/
+theorem lazy_write_after_error {T C : Type} (parse : Bytes → List C × Bool) (put : T → C → T)
+    (enc : T → Bytes) (empty : T → Bool) (s s' : Lazy.Obj T) (h : Lazy.unpack parse put s = .err s') :
+    Lazy.write enc s' = s.raw ∧ Lazy.isEmpty empty s' = false :=
+  ⟨(Lazy.write_after_error parse put enc s s' h).2, Lazy.isEmpty_after_error parse put empty s s' h⟩
+
+theorem lazy_ok_idempotent {T C : Type} (parse : Bytes → List C × Bool) (put : T → C → T)
+    (s s' : Lazy.Obj T) (h : Lazy.unpack parse put s = .ok s') :
+    Lazy.unpack parse put s' = .ok s' := Lazy.unpack_ok_idempotent parse put s s' h
+
+/-- the other order (bytes dropped before decoding) is not fail-closed: second access accepts the
+    partial table, `Write` re-encodes it -/
+theorem finding_drop_before_decode :
+    let s0 : Lazy.Obj (List Nat) := ⟨[1, 2, 255, 3], []⟩
+    let put := fun (t : List Nat) (c : Nat) => t ++ [c]
+    (Lazy.unpackDropFirst Lazy.toyParse put s0).failed = true ∧
+    (Lazy.unpackDropFirst Lazy.toyParse put (Lazy.unpackDropFirst Lazy.toyParse put s0).obj).failed = false ∧
+    (Lazy.unpackDropFirst Lazy.toyParse put (Lazy.unpackDropFirst Lazy.toyParse put s0).obj).obj.table = [1, 2] ∧
+    Lazy.write id (Lazy.unpackDropFirst Lazy.toyParse put s0).obj = [1, 2] := Lazy.dropFirst_not_fail_closed
 
 /-! ## the code as found violates both halves (witnesses; the same inputs are replayed on the
     Go side by harness/c04) -/
